@@ -497,7 +497,7 @@ pub fn model_nests(tasks: &[TaskDesc], groups: &[usize], tables: &[u8]) -> Vec<V
         }
         let mut nest = members.clone();
         let mut borrowed: std::collections::BTreeMap<u8, [u8; 3]> = Default::default();
-        let mut res = [0u8; 2];
+        let mut res = [0u8; 3];
         for &t in &members {
             for &m in tables {
                 if tasks[t].claims_table(m) {
@@ -507,7 +507,7 @@ pub fn model_nests(tasks: &[TaskDesc], groups: &[usize], tables: &[u8]) -> Vec<V
                     }
                 }
             }
-            for r in 0..2 {
+            for r in 0..3 {
                 res[r] = merge_claim(res[r], tasks[t].claim(10 + r as u8)).unwrap_or(2);
             }
         }
@@ -515,7 +515,7 @@ pub fn model_nests(tasks: &[TaskDesc], groups: &[usize], tables: &[u8]) -> Vec<V
             for t in (0..tasks.len()).filter(|&t| groups[t] == k + 1) {
                 let mut r2 = res;
                 let mut ok = true;
-                for r in 0..2 {
+                for r in 0..3 {
                     match merge_claim(r2[r], tasks[t].claim(10 + r as u8)) {
                         Some(x) => r2[r] = x,
                         None => ok = false,
